@@ -76,6 +76,31 @@ func c20Thread(seed uint64, nops int) string {
 				blob, pan := safeSerialize(ser, reuse)
 				if pan == "" {
 					ser.CompressMode(compModes[r.Intn(4)])
+					// a damaged copy of the blob first (a failing decode must not disturb
+					// the shared decoder pools other goroutines draw from)
+					if r.Chance(1, 2) && len(blob) > 24 {
+						bad := append([]byte{}, blob...)
+						for f := 0; f < 1+r.Intn(3); f++ {
+							bad[12+r.Intn(len(bad)-12)] ^= byte(1 + r.Intn(255))
+						}
+						if r.Chance(1, 4) {
+							bad = bad[:12+r.Intn(len(bad)-12)]
+						}
+						var pjb *simdjson.ParsedJson
+						var errb error = fmt.Errorf("skipped")
+						panb := ""
+						if !declaredTooBig(bad) {
+							pjb, errb, panb = safeDeserialize(ser, bad, nil)
+						}
+						fmt.Fprintf(h, "X%v%v", errb != nil, panb != "")
+						if errb == nil && panb == "" && pjb != nil {
+							func() {
+								defer func() { recover() }()
+								d, _ := dumpDoc(pjb)
+								io.WriteString(h, d)
+							}()
+						}
+					}
 					pj2, err, _ := safeDeserialize(ser, blob, nil)
 					fmt.Fprintf(h, "S%v", err != nil)
 					if err == nil {
